@@ -280,6 +280,8 @@ def judge(schema, script, hout, mout, inv, mem, families):
     for i, (l, h, m) in enumerate(zip(script, hout, mout)):
         if l.split()[0] in HARNESS_ONLY:
             continue
+        if h.startswith("bad-op") and m.startswith("bad-op"):
+            continue        # the line is outside the protocol on both sides (an unbound variable, a value out of range)
         if h != m:
             div = {"line": i, "input": l[:300], "impl": h[:700], "model": m[:700]}
             break
@@ -453,7 +455,8 @@ def run_part(ctx, pid, plan, families, **kw):
         vout.append({"tag": "oracle", "signature": {"family": "v1-lib1", "effect": v["tag"]},
                      "header": {"kind": "history", "what": v["what"][:300], "schema": v["schema"], "oracle": v["tag"]},
                      "body": body})
-    divs = [{"input": "%s: %s" % (d["schema"], " / ".join(x[:120] for x in d["script"][-4:] if x.split()[0] not in ("v1.obs",))[:500]),
+    divs = [{"input": "%s: line %d: %s  (after: %s)" % (d["schema"], d["line"], d["input"][:200], " / ".join(
+                 x[:100] for x in d["script"][:d["line"]] if x.split()[0] not in OBS)[-300:]),
              "impl": d["impl"], "model": d["model"]} for d in divergences[:8]]
     return {"ok": not vout and not divergences, "evaluations": steps, "distinct_nontrivial": len(distinct),
             "samples": [], "histograms": {"generated": hist, "impl_outcomes": outcomes,
